@@ -173,6 +173,24 @@ func (g *Gen) genConv(p *Prog) {
 			} else {
 				x = intToVal(v, 0, g.intn(2) == 0, uint(g.intn(3)), g.mode())
 			}
+		case 3: // sizes at which the binary word-count estimate of decToNat has no slack:
+			// floor(digits*log2(10)) is a multiple of 64; values at the top of that decade
+			var cands []int
+			for d := 20; d <= 3000; d++ {
+				if int(float64(d)*3.321928094887362)%64 == 0 {
+					cands = append(cands, d)
+				}
+			}
+			d := cands[g.intn(len(cands))]
+			if g.chance(0.7) {
+				d = cands[g.intn(6)]
+			}
+			digs := []byte(g.digitsPattern(d))
+			for i := 0; i < 3 && i < len(digs); i++ {
+				digs[i] = byte('7' + g.intn(3))
+			}
+			v := digitsToInt(string(digs))
+			x = intToVal(v, int64(g.intn(3)-1)*int64(g.intn(4)), g.intn(2) == 0, uint(g.intn(3)), g.mode())
 		case 1: // integer with trailing zeros: MinPrec = exp cases
 			v := digitsToInt(g.digitsPattern(1 + g.intn(25)))
 			x = intToVal(v, int64(g.intn(8)), g.intn(2) == 0, uint(g.intn(30)), g.mode())
@@ -723,6 +741,25 @@ func (g *Gen) genFloat(p *Prog) {
 		p.Exec(fmt.Sprintf("setfloat64 %d %016x", z, g.f64bits()))
 	case 2, 3: // Float64 / Float32
 		var x Val
+		if g.chance(0.12) {
+			// a zero (or infinity) that still carries the exponent of an earlier huge / tiny value
+			v := g.finite()
+			v.Exp = []int64{400, 5000, -400, -5000, 2147483000, -2147483000, 310, -325}[g.intn(8)]
+			xi := p.Load(v)
+			switch g.intn(4) {
+			case 0:
+				p.Exec(fmt.Sprintf("sub %d %d %d", xi, xi, xi))
+			case 1:
+				p.Exec(fmt.Sprintf("setuint64 %d 0", xi))
+			case 2:
+				p.Exec(fmt.Sprintf("setfloat64 %d 8000000000000000", xi))
+			default:
+				p.Exec(fmt.Sprintf("setinf %d %d", xi, g.intn(2)))
+			}
+			p.Exec(fmt.Sprintf("float64 %d", xi))
+			p.Exec(fmt.Sprintf("float32 %d", xi))
+			return
+		}
 		switch g.intn(5) {
 		case 0, 1: // a float64 value, exactly or perturbed far below one ulp
 			f := math.Float64frombits(g.f64bits())
